@@ -170,6 +170,7 @@ type tlSummary struct {
 	flagLoadTP string
 	flagSet    bool // sets P0.flags[P1] = true
 	markAll    bool // sets every flag of P0 true
+	retTab     [][]string          // per result: roots ("P<k>..." or "L" for a table local to the callee) the returned pointer may denote
 	mutTab     map[string]string // table roots (parameter- or freevar-rooted, or unknown) whose content this function may change -> witness
 	done       bool
 }
@@ -180,7 +181,7 @@ func (s *tlSummary) sig() string {
 		mt = append(mt, k)
 	}
 	sort.Strings(mt)
-	return fmt.Sprintf("%v|%v|%v|%v|%v|%v|%v|%v|%v", s.ret, s.pair, s.establish, s.estPaths, s.reqs, s.flagLoad, s.flagSet, s.markAll, mt)
+	return fmt.Sprintf("%v|%v|%v|%v|%v|%v|%v|%v|%v|%v", s.ret, s.pair, s.establish, s.estPaths, s.reqs, s.flagLoad, s.flagSet, s.markAll, mt, s.retTab)
 }
 
 // ---- sites ----
@@ -361,6 +362,7 @@ type tlFunc struct {
 	gstore map[ssa.Value][]ssa.Value
 	gsrc   map[ssa.Value][]ssa.Value
 	sum    *tlSummary
+	hstores map[string][]string
 }
 
 func ctxString(ctx map[int]bool) string {
@@ -402,6 +404,13 @@ func (e *tlEngine) summary(f *ssa.Function, ctx map[int]bool) *tlSummary {
 
 // boolConstArgs: constant bool arguments of a call, by parameter index of the callee.
 func boolConstArgs(callee *ssa.Function, args []ssa.Value) map[int]bool {
+	return boolCtxArgs(nil, callee, args)
+}
+
+// boolCtxArgs also propagates the caller's own context: a bool parameter whose value is fixed in
+// the current context is as good as a constant (matchInt64Trie passes its `owned` on to
+// bsi64PlaneChild).
+func boolCtxArgs(t *tlFunc, callee *ssa.Function, args []ssa.Value) map[int]bool {
 	var ctx map[int]bool
 	for i, a := range args {
 		if i >= len(callee.Params) {
@@ -412,6 +421,21 @@ func boolConstArgs(callee *ssa.Function, args []ssa.Value) map[int]bool {
 				ctx = map[int]bool{}
 			}
 			ctx[i] = constant.BoolVal(c.Value)
+			continue
+		}
+		if t != nil {
+			if p, ok := a.(*ssa.Parameter); ok {
+				for k, q := range t.fn.Params {
+					if q == p {
+						if bv, ok := t.ctx[k]; ok {
+							if ctx == nil {
+								ctx = map[int]bool{}
+							}
+							ctx[i] = bv
+						}
+					}
+				}
+			}
 		}
 	}
 	return ctx
@@ -429,12 +453,19 @@ func (t *tlFunc) root(v ssa.Value) string {
 	t.rbusy[v] = true
 	r := t.root1(v)
 	delete(t.rbusy, v)
-	t.roots[v] = r
+	// a result that still mentions the recursion placeholder is only valid inside the enclosing phi
+	if r != "phi" && !strings.Contains(r, "(phi,") && !strings.Contains(r, ",phi,") && !strings.Contains(r, ",phi)") && !strings.Contains(r, "(phi)") && !strings.HasPrefix(r, "phi.") && !strings.Contains(r, "M(phi") {
+		t.roots[v] = r
+	}
 	return r
 }
 
 func (t *tlFunc) root1(v ssa.Value) string {
 	switch x := v.(type) {
+	case *ssa.Const:
+		if x.IsNil() {
+			return "nil"
+		}
 	case *ssa.Parameter:
 		for i, p := range t.fn.Params {
 			if p == x {
@@ -475,41 +506,41 @@ func (t *tlFunc) root1(v ssa.Value) string {
 	case *ssa.Alloc:
 		return t.allocRoot(x)
 	case *ssa.Call:
-		if f := x.Call.StaticCallee(); f != nil {
-			if s := t.e.own.Sum(f); s != nil && len(s.ret) > 0 {
-				ri := s.ret[0]
-				if ri.fresh && len(ri.is) == 0 && len(ri.isDeep) == 0 && !ri.global {
-					return fmt.Sprintf("L:call%d", instrIndex(x))
+		return t.callRoot(x, 0)
+	case *ssa.Extract:
+		if c, ok := x.Tuple.(*ssa.Call); ok {
+			return t.callRoot(c, x.Index)
+		}
+		return fmt.Sprintf("%s#%d", t.root(x.Tuple), x.Index)
+	case *ssa.Phi:
+		// leaves of the phi web (phis of phis are flattened; loop-carried self references vanish)
+		var rs []string
+		seen := map[string]bool{}
+		visited := map[*ssa.Phi]bool{}
+		var leaves func(ph *ssa.Phi)
+		leaves = func(ph *ssa.Phi) {
+			if visited[ph] {
+				return
+			}
+			visited[ph] = true
+			for i, e := range ph.Edges {
+				if t.predEdgeDead(ph.Block().Preds[i], ph.Block()) {
+					continue
 				}
-				if !ri.fresh && len(ri.is) == 1 && len(ri.isDeep) == 0 && !ri.global {
-					for k := range ri.is {
-						args := x.Call.Args
-						if k < len(args) {
-							return t.root(args[k])
-						}
+				if p2, ok := e.(*ssa.Phi); ok {
+					leaves(p2)
+					continue
+				}
+				r := t.root(e)
+				for _, part := range splitPhiTop(r) {
+					if part != "phi" && !seen[part] {
+						seen[part] = true
+						rs = append(rs, part)
 					}
 				}
 			}
 		}
-		return fmt.Sprintf("C:call%d", instrIndex(x))
-	case *ssa.Extract:
-		return fmt.Sprintf("%s#%d", t.root(x.Tuple), x.Index)
-	case *ssa.Phi:
-		var rs []string
-		seen := map[string]bool{}
-		for i, e := range x.Edges {
-			if t.predEdgeDead(x.Block().Preds[i], x.Block()) {
-				continue
-			}
-			r := t.root(e)
-			if r == "phi" {
-				continue // the phi itself (loop-carried)
-			}
-			if !seen[r] {
-				seen[r] = true
-				rs = append(rs, r)
-			}
-		}
+		leaves(x)
 		sort.Strings(rs)
 		if len(rs) == 1 {
 			return rs[0]
@@ -530,6 +561,70 @@ func (t *tlFunc) root1(v ssa.Value) string {
 		return "G:" + x.Name()
 	}
 	return fmt.Sprintf("?%s", v.Name())
+}
+
+// callRoot: the table(s) result #ri of a call may denote.
+func (t *tlFunc) callRoot(x *ssa.Call, ri int) string {
+	if f := x.Call.StaticCallee(); f != nil {
+		// table-level summary of the callee (context-sensitive)
+		if t.e.inScope(f) && f.Blocks != nil && !t.e.isKernelFn(f) {
+			if s := t.e.sums[t.e.sumKey(f, ctxString(boolCtxArgs(t, f, x.Call.Args)))]; s != nil && s.done && ri < len(s.retTab) && len(s.retTab[ri]) > 0 {
+				var rs []string
+				seen := map[string]bool{}
+				ok := true
+				for _, r := range s.retTab[ri] {
+					var m string
+					if r == "L" {
+						m = fmt.Sprintf("L:call%d", instrIndex(x))
+					} else if r == "nil" {
+						continue
+					} else if strings.HasPrefix(r, "C:call") {
+						continue // a call not yet resolved inside the callee (recursion): covered by its other entries at the fixpoint
+					} else if _, _, isP := rootParam(strings.TrimPrefix(strings.TrimPrefix(r, "M("), "phi(")); isP || strings.Contains(r, "(P") || strings.Contains(r, ",P") {
+						mm, good := substRoot(r, func(k int) (string, bool) {
+							if k < len(x.Call.Args) {
+								return t.root(x.Call.Args[k]), true
+							}
+							return "", false
+						})
+						if good {
+							m = mm
+						} else {
+							ok = false
+						}
+					} else {
+						ok = false
+					}
+					if !seen[m] {
+						seen[m] = true
+						rs = append(rs, m)
+					}
+				}
+				if ok && len(rs) > 0 {
+					sort.Strings(rs)
+					if len(rs) == 1 {
+						return rs[0]
+					}
+					return "phi(" + strings.Join(rs, ",") + ")"
+				}
+			}
+		}
+		if s := t.e.own.Sum(f); s != nil && ri < len(s.ret) {
+			r := s.ret[ri]
+			if r.fresh && len(r.is) == 0 && len(r.isDeep) == 0 && !r.global {
+				return fmt.Sprintf("L:call%d", instrIndex(x))
+			}
+			if !r.fresh && len(r.is) == 1 && len(r.isDeep) == 0 && !r.global {
+				for k := range r.is {
+					args := x.Call.Args
+					if k < len(args) {
+						return t.root(args[k])
+					}
+				}
+			}
+		}
+	}
+	return fmt.Sprintf("C:call%d<%s>", instrIndex(x), calleeName(&x.Call))
 }
 
 func instrIndex(i ssa.Instruction) int {
@@ -568,6 +663,155 @@ func (t *tlFunc) allocRoot(al *ssa.Alloc) string {
 }
 
 func isLocalRoot(r string) bool { return strings.HasPrefix(r, "L:") }
+
+// splitPhiTop: the alternatives of a root that is exactly "phi(a,b,...)"; any other root is its own single alternative.
+func splitPhiTop(r string) []string {
+	if strings.HasPrefix(r, "phi(") && strings.HasSuffix(r, ")") {
+		depth := 0
+		for i, c := range r {
+			if c == '(' {
+				depth++
+			} else if c == ')' {
+				depth--
+				if depth == 0 && i != len(r)-1 {
+					return []string{r} // "phi(...).path": keep whole
+				}
+			}
+		}
+		return splitPhi(r)
+	}
+	return []string{r}
+}
+
+// substRoot rewrites a callee-relative root into the caller's terms: every parameter token P<k>
+// (at the start, or right after "(" or ",") is replaced by m(k); ok=false if some parameter cannot be mapped.
+func substRoot(tab string, m func(k int) (string, bool)) (string, bool) {
+	var sb strings.Builder
+	ok := true
+	i := 0
+	for i < len(tab) {
+		atTok := i == 0 || tab[i-1] == '(' || tab[i-1] == ','
+		if atTok && tab[i] == 'P' && i+1 < len(tab) && tab[i+1] >= '0' && tab[i+1] <= '9' {
+			j := i + 1
+			for j < len(tab) && tab[j] >= '0' && tab[j] <= '9' {
+				j++
+			}
+			var k int
+			fmt.Sscanf(tab[i+1:j], "%d", &k)
+			if r, good := m(k); good {
+				sb.WriteString(r)
+			} else {
+				ok = false
+				sb.WriteString(tab[i:j])
+			}
+			i = j
+			continue
+		}
+		sb.WriteByte(tab[i])
+		i++
+	}
+	return sb.String(), ok
+}
+
+// rootLocal: the table denoted by tab is memory created by this function (or by a constructor it
+// called) and every pointer on the way to it was stored by this function from local values.
+func (t *tlFunc) rootLocal(tab string) bool {
+	switch {
+	case strings.HasPrefix(tab, "closure:"):
+		return t.rootLocal(strings.TrimPrefix(tab, "closure:"))
+	case strings.HasPrefix(tab, "L:"):
+		return true
+	case strings.HasPrefix(tab, "phi("):
+		// phi(a,b).path
+		depth, end := 0, -1
+		for i, r := range tab {
+			if r == '(' {
+				depth++
+			} else if r == ')' {
+				depth--
+				if depth == 0 {
+					end = i
+					break
+				}
+			}
+		}
+		if end < 0 {
+			return false
+		}
+		for _, part := range splitPhi(tab[:end+1]) {
+			if !t.rootLocal(part) {
+				return false
+			}
+		}
+		return true
+	case strings.HasPrefix(tab, "M("):
+		depth, end := 0, -1
+		for i, r := range tab {
+			if r == '(' {
+				depth++
+			} else if r == ')' {
+				depth--
+				if depth == 0 {
+					end = i
+					break
+				}
+			}
+		}
+		if end < 0 {
+			return false
+		}
+		inner := tab[2:end]
+		if !t.rootLocal(innerBase(inner)) {
+			return false
+		}
+		// pointers stored by this function at that address must themselves be local
+		for _, vr := range t.heapStores()[inner] {
+			if !t.rootLocal(vr) {
+				return false
+			}
+		}
+		return true
+	}
+	return false
+}
+
+// innerBase strips trailing field / element selectors: "L:call4.bA[]" -> "L:call4".
+func innerBase(r string) string {
+	if strings.HasPrefix(r, "M(") || strings.HasPrefix(r, "phi(") {
+		return r
+	}
+	for i, c := range r {
+		if (c == '.' || c == '[') && i > 2 {
+			return r[:i]
+		}
+	}
+	return r
+}
+
+// heapStores: address root -> roots of the pointer values this function stores there.
+func (t *tlFunc) heapStores() map[string][]string {
+	if t.hstores != nil {
+		return t.hstores
+	}
+	t.hstores = map[string][]string{}
+	for _, b := range t.fn.Blocks {
+		for _, ins := range b.Instrs {
+			st, ok := ins.(*ssa.Store)
+			if !ok {
+				continue
+			}
+			if _, isPtr := st.Val.Type().Underlying().(*types.Pointer); !isPtr {
+				continue
+			}
+			if _, isAlloc := st.Addr.(*ssa.Alloc); isAlloc {
+				continue
+			}
+			a := t.root(st.Addr)
+			t.hstores[a] = append(t.hstores[a], t.root(st.Val))
+		}
+	}
+	return t.hstores
+}
 
 func rootParam(r string) (idx int, path string, ok bool) {
 	if !strings.HasPrefix(r, "P") {
@@ -1088,7 +1332,7 @@ func (t *tlFunc) transferCall(c *ssa.CallCommon, call *ssa.Call, cur factSet) {
 				cur.killTab(tab)
 			}
 		}
-		ctx := boolConstArgs(f, args)
+		ctx := boolCtxArgs(t, f, args)
 		s := t.e.summary(f, ctx)
 		for k, est := range s.establish {
 			if tab, ok := targs[est[0]]; ok && est[1] < len(args) {
@@ -1600,7 +1844,7 @@ func (t *tlFunc) callProv(c *ssa.Call, ri int) atomSet {
 	for _, f := range callees {
 		// table-level summary first (functions that hand out slot values)
 		if !common.IsInvoke() && inRepo(f) && f.Blocks != nil && t.e.inScope(f) && !t.e.isKernelFn(f) {
-			s := t.e.summary(f, boolConstArgs(f, args))
+			s := t.e.summary(f, boolCtxArgs(t, f, args))
 			if ri < len(s.ret) && s.done {
 				for _, ra := range s.ret[ri] {
 					switch ra.k {
